@@ -12,6 +12,7 @@ SPEC = os.path.join(VERIF, "spec")
 EVID = os.path.join(VERIF, "evidence")
 WORK = os.path.join(VERIF, ".work")
 GUARD = "WANNIERBERRI_VERIF_TRACE"
+FINISHED_WITH = None
 
 
 def seed():
@@ -148,6 +149,8 @@ class Report:
         print(f"[{self.pid}] tier={self.tier} level={self.level} states={cov['states']} transitions={cov['transitions']} "
               f"traces={cov['traces_validated_against_impl']} evaluations={cov['evaluations']} "
               f"distinct={cov['distinct_nontrivial']} violations={len(self.violations)} known={len(self.known_hits)} wall={wall:.1f}s")
+        global FINISHED_WITH
+        FINISHED_WITH = rc          # main.py: a check that printed violations exits 1 even if it stops with an exception afterwards
         return rc
 
 
